@@ -217,6 +217,66 @@ theorem step_fast_local (G : GenLayer) (cfg : Config) (st : State) (i : Input)
     | error => exact ⟨rfl, hl⟩
 
 
+/-! ### the reassembly table, with no hypothesis about address claims -/
+
+/-- `callDecode` never assigns the table — address claim or not, whatever it returns -/
+theorem callDecode_table (G : GenLayer) (cfg : Config) (st : State) (i : Input) (payload : List Nat)
+    (iso : Option IsoName) : (callDecode G cfg st i payload iso).1.table = st.table := by
+  rcases callDecode_spec G cfg st i payload iso with ⟨h, _⟩ | ⟨m, st1, iso1, _, hc, ht, _, _⟩
+  · rw [h]
+  · rw [ht, hc.table]
+
+theorem step_table_nonfast (G : GenLayer) (cfg : Config) (st : State) (i : Input)
+    (hk : i.combined = true ∨ G.isFast i.pgn ≠ .fast) :
+    (step G cfg st i).1.table = st.table := by
+  have hkind := nonfast_kind G i hk
+  rw [step_eq]
+  cases preOf cfg st i with
+  | none => rfl
+  | some iso =>
+    simp only
+    generalize (if i.combined then FastKind.single else G.isFast i.pgn) = kind at hkind
+    cases kind with
+    | raises => rfl
+    | unknown => rfl
+    | single => exact callDecode_table G cfg st i i.data iso
+    | fast => exact absurd rfl hkind
+
+/-- a frame of a fast PGN: the table after the step is the table after `Fast.stepK`, or untouched
+(filtered out) — whatever `callDecode` does after the last frame -/
+theorem step_fast_table (G : GenLayer) (cfg : Config) (st : State) (i : Input)
+    (hk : i.combined = false) (hf : G.isFast i.pgn = .fast) :
+    (step G cfg st i).1.table = st.table ∨
+      (step G cfg st i).1.table = (Fast.stepK st.table (i.pgn, i.src, i.dst) i.data).1 := by
+  rw [step_fast_eq G cfg st i hk hf]
+  cases preOf cfg st i with
+  | none => exact Or.inl rfl
+  | some iso =>
+    refine Or.inr ?_
+    simp only
+    generalize Fast.stepK st.table (i.pgn, i.src, i.dst) i.data = s
+    obtain ⟨t', o⟩ := s
+    cases o with
+    | complete payload => simp only; rw [callDecode_table]
+    | ignored => rfl
+    | stored => rfl
+    | error => rfl
+
+theorem step_table_other (G : GenLayer) (cfg : Config) (st : State) (i : Input) (k : Fast.Key)
+    (hne : k ≠ (i.pgn, i.src, i.dst)) :
+    Fast.lookup (step G cfg st i).1.table k = Fast.lookup st.table k := by
+  by_cases hfast : i.combined = false ∧ G.isFast i.pgn = .fast
+  · have hl := Fast.L04.lookup_stepK st.table (i.pgn, i.src, i.dst) k i.data
+    rw [if_neg hne] at hl
+    rcases step_fast_table G cfg st i hfast.1 hfast.2 with h | h
+    · rw [h]
+    · rw [h, hl]
+  · have hk : i.combined = true ∨ G.isFast i.pgn ≠ .fast := by
+      by_cases hc : i.combined = true
+      · exact Or.inl hc
+      · exact Or.inr (fun hf => hfast ⟨by simpa using hc, hf⟩)
+    rw [step_table_nonfast G cfg st i hk]
+
 /-! ### a whole fast-packet message, frame by frame -/
 
 theorem fastRun_length (fs : List Fast.Bytes) : ∀ (r : Option Fast.Rec), (Fast.run r fs).2.length = fs.length := by
